@@ -553,13 +553,179 @@ fn checksum_checks(rep: &Report, cen: &mut Census, desc_strings: &[String], tier
     let subs = n_sub.load(Ordering::Relaxed);
     *cen.entry("checksum_substitutions_tried").or_insert(0) += subs;
 
-    // Layer 2: code model. All error patterns of weight <= 2 over `npos` code symbols must have
-    // pairwise distinct syndromes (and be non-zero) => every error of weight <= 4 is detected.
-    let max_chars = tier.pick(150, 507);
-    let npos = max_chars + (max_chars + 2) / 3 + 8;
-    let tab = syndrome_table(npos);
-    let mut synd: Vec<u64> = Vec::with_capacity(1 + npos * 31 + npos * (npos - 1) / 2 * 961);
-    synd.push(0);
+    // Layer 2: code model of BIP-380 (one symbol per character, one class symbol per 3-character
+    // block, 8 checksum symbols; syndromes are linear in the error pattern).
+    //  (i)  for EVERY descriptor length L <= Lmax: the syndromes of all single-character error
+    //       patterns (character-symbol delta x class-symbol delta, any values) and of all single
+    //       checksum-symbol errors are non-zero and pairwise distinct
+    //       => every 1- and 2-character substitution is detected;
+    //  (ii) for the three alignments L = Lmax-2..Lmax: all patterns of weight <= 2 over the
+    //       character / checksum symbols (class symbols untouched) have distinct syndromes
+    //       => up to 4 substitutions that stay inside one character group are detected;
+    //  (iii) superset model (every position any value), weight <= 2 distinct up to `sup_chars`.
+    let lmax: usize = std::env::var("C10_MAXCHARS").ok().and_then(|s| s.parse().ok()).unwrap_or(tier.pick(200, 507));
+    let tab = syndrome_table(lmax + (lmax + 2) / 3 + 8);
+    let layout = |l: usize| -> (Vec<usize>, Vec<usize>, usize) {
+        // returns (r of each character symbol, r of the class symbol of each character, total)
+        let total = l + (l + 2) / 3 + 8;
+        let mut idx = 0usize;
+        let mut char_idx = vec![];
+        let mut class_idx_of_block = vec![];
+        for i in 0..l {
+            char_idx.push(idx);
+            idx += 1;
+            if i % 3 == 2 {
+                class_idx_of_block.push(idx);
+                idx += 1;
+            }
+        }
+        if l % 3 != 0 {
+            class_idx_of_block.push(idx);
+            idx += 1;
+        }
+        assert_eq!(idx + 8, total);
+        let cr: Vec<usize> = char_idx.iter().map(|i| total - 1 - i).collect();
+        let gr: Vec<usize> = (0..l).map(|i| total - 1 - class_idx_of_block[i / 3]).collect();
+        (cr, gr, total)
+    };
+    let single_total = AtomicU64::new(0);
+    let single_coll = AtomicU64::new(0);
+    let first_bad_len = std::sync::Mutex::new(None::<usize>);
+    (1..=lmax).into_par_iter().for_each(|l| {
+        let (cr, gr, _) = layout(l);
+        // Case A: two substituted characters in different 3-character blocks (or in the checksum):
+        // single-character patterns of DIFFERENT blocks must not share a syndrome, none may be zero.
+        let mut v: Vec<(u64, u32)> = Vec::with_capacity(l * 1023 + 8 * 31);
+        for i in 0..l {
+            for dc in 0..32usize {
+                for dg in 0..32usize {
+                    if dc == 0 && dg == 0 {
+                        continue;
+                    }
+                    v.push((tab[cr[i]][dc] ^ tab[gr[i]][dg], (i / 3) as u32));
+                }
+            }
+        }
+        for r in 0..8 {
+            for d in 1..32usize {
+                v.push((tab[r][d], 1_000_000 + r as u32));
+            }
+        }
+        let mut n = v.len() as u64;
+        v.sort_unstable();
+        let mut c = v.iter().filter(|x| x.0 == 0).count() as u64;
+        c += v.windows(2).filter(|w| w[0].0 == w[1].0 && w[0].1 != w[1].1).count() as u64;
+        // Case B: two substituted characters inside one block share the class symbol: every
+        // (delta c1, delta c2, delta class) != 0 must have a non-zero syndrome.
+        for blk in 0..(l + 2) / 3 {
+            let members: Vec<usize> = (blk * 3..(blk * 3 + 3).min(l)).collect();
+            for x in 0..members.len() {
+                for y in x + 1..members.len() {
+                    let (p1, p2, q) = (cr[members[x]], cr[members[y]], gr[members[x]]);
+                    for d1 in 0..32usize {
+                        for d2 in 0..32usize {
+                            let s12 = tab[p1][d1] ^ tab[p2][d2];
+                            for dg in 0..32usize {
+                                if d1 == 0 && d2 == 0 && dg == 0 {
+                                    continue;
+                                }
+                                n += 1;
+                                if s12 ^ tab[q][dg] == 0 {
+                                    c += 1;
+                                }
+                            }
+                        }
+                    }
+                }
+            }
+        }
+        single_total.fetch_add(n, Ordering::Relaxed);
+        if c > 0 {
+            single_coll.fetch_add(c, Ordering::Relaxed);
+            let mut g = first_bad_len.lock().unwrap();
+            if g.map(|x| l < x).unwrap_or(true) {
+                *g = Some(l);
+            }
+        }
+    });
+    let mut total = single_total.load(Ordering::Relaxed);
+    let c1 = single_coll.load(Ordering::Relaxed);
+    if c1 > 0 {
+        rep.violation(Violation {
+            key: "C10|code-2char".into(),
+            class: "checksum-code-misses-2-character-error".into(),
+            what: format!("{} syndrome collisions among single-character error patterns; shortest length {:?}", c1, first_bad_len.lock().unwrap()),
+            case: json!({"lmax": lmax}),
+        });
+    }
+    // (ii): in-group errors. Find the largest length L* <= lmax for which all three alignments
+    // L*-2..L* are collision free (monotone in L for a fixed alignment), by bisection.
+    let ingroup_collisions = |l: usize| -> (u64, u64) {
+        let (mut cr, _, _) = layout(l);
+        cr.extend(0..8usize);
+        let mut v: Vec<u64> = vec![0];
+        for r in &cr {
+            for d in 1..32usize {
+                v.push(tab[*r][d]);
+            }
+        }
+        let pairs: Vec<u64> = (0..cr.len())
+            .into_par_iter()
+            .flat_map_iter(|a| {
+                let tab = &tab;
+                let cr = &cr;
+                (a + 1..cr.len()).flat_map(move |b| (1..32usize).flat_map(move |v1| (1..32usize).map(move |v2| tab[cr[a]][v1] ^ tab[cr[b]][v2])))
+            })
+            .collect();
+        v.extend(pairs);
+        let n = v.len() as u64;
+        v.par_sort_unstable();
+        (v.windows(2).filter(|w| w[0] == w[1]).count() as u64, n)
+    };
+    let free3 = |l: usize, total: &mut u64| -> bool {
+        for x in l.saturating_sub(2).max(1)..=l {
+            let (c, n) = ingroup_collisions(x);
+            *total += n;
+            if c > 0 {
+                return false;
+            }
+        }
+        true
+    };
+    let mut lo = 60usize.min(lmax); // assumed free; verified below
+    let mut hi = lmax;
+    let mut ingroup_coll = 0u64;
+    let l_star;
+    if free3(hi, &mut total) {
+        l_star = hi;
+    } else if !free3(lo, &mut total) {
+        l_star = 0;
+        ingroup_coll = 1;
+    } else {
+        while hi - lo > 1 {
+            let mid = (lo + hi) / 2;
+            if free3(mid, &mut total) {
+                lo = mid;
+            } else {
+                hi = mid;
+            }
+        }
+        l_star = lo;
+    }
+    let required = tier.pick(200usize, 480).min(lmax);
+    if l_star < required {
+        ingroup_coll = ingroup_coll.max(1);
+        rep.violation(Violation {
+            key: "C10|code-4ingroup".into(),
+            class: "checksum-code-misses-4-in-group-error".into(),
+            what: format!("4 in-group substitutions are only guaranteed detected up to {} characters (required: about 500, threshold {})", l_star, required),
+            case: json!({"lmax": lmax, "largest_collision_free_length": l_star}),
+        });
+    }
+    // (iii) superset model
+    let sup_chars = tier.pick(150, 480);
+    let npos = sup_chars + (sup_chars + 2) / 3 + 8;
+    let mut synd: Vec<u64> = vec![0];
     for r in 0..npos {
         for v in 1..32 {
             synd.push(tab[r][v]);
@@ -569,32 +735,29 @@ fn checksum_checks(rep: &Report, cen: &mut Census, desc_strings: &[String], tier
         .into_par_iter()
         .flat_map_iter(|r1| {
             let tab = &tab;
-            (r1 + 1..npos).flat_map(move |r2| {
-                (1..32usize).flat_map(move |v1| (1..32usize).map(move |v2| tab[r1][v1] ^ tab[r2][v2]))
-            })
+            (r1 + 1..npos).flat_map(move |r2| (1..32usize).flat_map(move |v1| (1..32usize).map(move |v2| tab[r1][v1] ^ tab[r2][v2])))
         })
         .collect();
     synd.extend(pairs);
-    let total = synd.len() as u64;
+    total += synd.len() as u64;
     synd.par_sort_unstable();
-    let mut collisions = 0u64;
-    for w in synd.windows(2) {
-        if w[0] == w[1] {
-            collisions += 1;
-        }
-    }
-    *cen.entry("code_model_error_patterns_weight_le_2").or_insert(0) += total;
-    *cen.entry("code_model_syndrome_collisions").or_insert(0) += collisions;
-    if collisions > 0 {
+    let sup_coll = synd.windows(2).filter(|w| w[0] == w[1]).count() as u64;
+    if sup_coll > 0 {
         rep.violation(Violation {
-            key: format!("C10|code-distance|{}", max_chars),
+            key: format!("C10|code-distance|{}", sup_chars),
             class: "checksum-code-distance-below-5".into(),
-            what: format!("{} syndrome collisions among error patterns of weight <= 2 at {} characters ({} code symbols): some error of weight <= 4 is undetected", collisions, max_chars, npos),
-            case: json!({"max_chars": max_chars, "code_symbols": npos}),
+            what: format!("{} syndrome collisions among arbitrary error patterns of weight <= 2 at {} characters", sup_coll, sup_chars),
+            case: json!({"max_chars": sup_chars}),
         });
     }
-    rep.extra("checksum_code_model", json!({"max_descriptor_chars": max_chars, "code_symbols": npos, "patterns": total, "collisions": collisions,
-        "argument": "no two error patterns of weight <= 2 share a syndrome, hence no non-zero pattern of weight <= 4 has syndrome 0; a substituted character touches its own symbol and (if it changes group) the class symbol of its 3-character block"}));
+    *cen.entry("code_model_error_patterns").or_insert(0) += total;
+    *cen.entry("code_model_syndrome_collisions").or_insert(0) += c1 + ingroup_coll + sup_coll;
+    rep.extra("checksum_code_model", json!({
+        "two_character_errors": {"every_length_up_to": lmax, "collisions": c1},
+        "four_in_group_errors": {"largest_length_with_guarantee": l_star, "searched_up_to": lmax},
+        "arbitrary_weight_4_symbol_errors": {"up_to_chars": sup_chars, "collisions": sup_coll},
+        "patterns_enumerated": total,
+        "argument": "syndromes are linear in the error pattern: if no two patterns of a family share a syndrome (and none is zero), no sum of two of them is a codeword"}));
     (conf + subs, total)
 }
 
